@@ -4,6 +4,7 @@ package main
 // one site and record instance / violation in the current obligation.
 
 import (
+	"os"
 	"fmt"
 	"go/constant"
 	"go/token"
@@ -466,6 +467,13 @@ func (c *Ctx) Unreachable(site ssa.Instruction, label string, when ...FM) bool {
 		return false
 	}
 	sb := site.Block()
+	if os.Getenv("VCHK_DEBUG") != "" {
+		fmt.Fprintf(os.Stderr, "Unreachable %s site=%s block=%d arms=", label, instrStr(site), sb.Index)
+		for _, a := range arms {
+			fmt.Fprintf(os.Stderr, "%d ", a.Index)
+		}
+		fmt.Fprintln(os.Stderr)
+	}
 	for _, a := range arms {
 		// Loops: a path from the refusing arm that re-enters the header of a loop enclosing the arm
 		// starts a new iteration. It is discounted when the test that established the refusing
@@ -475,7 +483,7 @@ func (c *Ctx) Unreachable(site ssa.Instruction, label string, when ...FM) bool {
 		isHeader := false
 		fromArm := reachableBlocks(a)
 		for _, h := range fn.Blocks {
-			if !(h.Dominates(a) && fromArm[h]) {
+			if !(h.Dominates(a) && fromArm[h]) || !isLoopHeader(h) {
 				continue // not the header of a loop enclosing the arm
 			}
 			// same-iteration region: a successor of the header that stays in the loop and dominates the site
@@ -496,6 +504,13 @@ func (c *Ctx) Unreachable(site ssa.Instruction, label string, when ...FM) bool {
 				isHeader = true
 			}
 			blocked[h] = true
+		}
+		if os.Getenv("VCHK_DEBUG") != "" {
+			fmt.Fprintf(os.Stderr, "  arm %d isHeader=%v blocked=", a.Index, isHeader)
+			for b := range blocked {
+				fmt.Fprintf(os.Stderr, "%d ", b.Index)
+			}
+			fmt.Fprintln(os.Stderr)
 		}
 		if isHeader {
 			continue // the refusing edge leads straight to the next iteration
@@ -771,4 +786,14 @@ func (c *Ctx) ErrorsPropagate(fn *ssa.Function, label string, skip func(*ssa.Cal
 func isErrorType(t types.Type) bool {
 	n, ok := t.(*types.Named)
 	return ok && n.Obj().Pkg() == nil && n.Obj().Name() == "error"
+}
+
+// isLoopHeader: h is the target of a back edge (some predecessor is dominated by h).
+func isLoopHeader(h *ssa.BasicBlock) bool {
+	for _, p := range h.Preds {
+		if p == h || h.Dominates(p) {
+			return true
+		}
+	}
+	return false
 }
